@@ -260,6 +260,19 @@ func runC05(c *core.Ctx) {
 			k.goit("add", "big")
 		}
 		k.MsgClass = w.Hist%2 == 1
+		if idTwins(); twinTs && w.Hist%12 == 7 {
+			// two directories of one snapshot whose TREE ids share their first 32 bits
+			w.Write("twa/f", twinTreeA)
+			w.Write("twb/f", twinTreeB)
+			w.Write("nest/twa/f", twinTreeA)
+			w.Write("nest/other/twb/f", twinTreeB)
+			k.goit("add", "twa", "twb", "nest")
+			c.Count("C05.histories-with-tree-id-twins")
+		}
+		if w.Hist%24 == 17 {
+			k.DeepPaths()
+			k.goit("add", "deep", "long")
+		}
 		if w.Hist%24 == 13 {
 			k.BoundaryFiles("blk/")
 			k.goit("add", "blk")
